@@ -195,6 +195,25 @@ func literalVal(p *core.Program, e ast.Expr) (Val, error) {
 		if x.Op == token.AND {
 			return literalVal(p, x.X)
 		}
+	case *ast.SelectorExpr:
+		// a method expression (*T).m / T.m: the method itself
+		if sel, ok := p.Info.Selections[x]; ok && sel.Kind() == types.MethodExpr {
+			if f, ok := sel.Obj().(*types.Func); ok {
+				if fn := p.SSA.FuncValue(f); fn != nil {
+					return fn, nil
+				}
+			}
+		}
+	case *ast.FuncLit:
+		// a function literal of a package-level initialiser without captured variables
+		if init := p.SSAPkg.Func("init"); init != nil {
+			for _, an := range init.AnonFuncs {
+				if an.Syntax() == ast.Node(x) && len(an.FreeVars) == 0 {
+					return an, nil
+				}
+			}
+		}
+		return nil, fmt.Errorf("%s: function literal not resolved", p.Pos(e.Pos()))
 	case *ast.CompositeLit:
 		tv, ok := p.Info.Types[x]
 		if !ok {
@@ -302,4 +321,18 @@ func globalLoader(p *core.Program, depth int) func(g *ssa.Global) (Val, error) {
 		}
 		return &Cell{V: v}, nil
 	}
+}
+
+// ClosedValue: the value of a package-level variable whose initialiser is a
+// literal of constants / function values, or a call of a table builder.
+func ClosedValue(p *core.Program, name string) (Val, error) {
+	e, _ := varInit(p, name)
+	if e == nil {
+		return nil, fmt.Errorf("no initialiser for package variable %s", name)
+	}
+	if v, err := literalVal(p, e); err == nil {
+		return v, nil
+	}
+	v, _, err := evalVarInitDepth(p, name, 0)
+	return v, err
 }
